@@ -418,6 +418,8 @@ fn probe_boot_in_place(dir: &str) -> Result<(), String> {
             return Err("fork failed".to_string());
         }
         if pid == 0 {
+            // (the child has a copy of the crash recorder's state: it must not write images of its own)
+            crate::interpose::set_file_hook(None);
             cap_memory(3 << 30);
             libc::alarm(30);
             let d = dir.to_string();
